@@ -105,3 +105,59 @@ MUTANTS = [
     ("_load_lines: record stored without a source entry", A, "            records[key] = value\n            source.append((_RECORD, key))\n", "            records[key] = value\n", "refute", "_load_lines"),
     ("_load_lines: records installed before parsing finished (not atomic)", A, "        records = {}\n        source = []\n        skipped = b\"\"\n", "        records = self._records = {}\n        source = []\n        skipped = b\"\"\n", "refute", "_load_lines"),
 ]
+
+
+# ---- HtpasswdFile.check_password: None for unknown users, the context's verdict otherwise, an upgraded hash stored in place -------
+def _cp_setup(it, args):
+    dom = z3.Array("records.dom", S, z3.BoolSort())
+    arr = z3.Array("records.val", S, S)
+    records = SMap(dom, arr, S, lambda e: SStr(e, "bytes"), "records")
+    ok = z3.Bool("context verifies the password")
+    has_new = z3.Bool("context returns an upgraded hash")
+    new_hash = z3.String("upgraded hash")
+    seen = {}
+
+    def vau(i, a, k):
+        seen["password"], seen["hash"] = i.resolve(a[0]), i.resolve(a[1])
+        if i.run.branch(has_new):
+            return (SBool(ok), SStr(new_hash, "bytes"))
+        return (SBool(ok), None)
+
+    self = args["self"]
+    self.fields.update({"_records": records, "encoding": "utf-8", "_encode_user": SStub(lambda i, a, k: a[0], "_encode_user (identity on valid bytes)"),
+                        "context": SObj("context", fields={"verify_and_update": SStub(vau, "context.verify_and_update (C04)")}),
+                        "_autosave": SStub(lambda i, a, k: None, "_autosave")})
+    it.run.ghost.update({"dom0": dom, "arr0": arr, "records": records, "ok": ok, "has_new": has_new, "new_hash": new_hash, "seen": seen})
+    return None
+
+
+def _cp_post(it, env):
+    g = it.run.ghost
+    user = it.to_z3(env.lookup("user"))
+    known = z3.Select(g["dom0"], user)
+    res = it.resolve(env.lookup("result"))
+    q = z3.String("other user")
+    r = g["records"]
+    untouched = z3.Implies(q != user, z3.And(z3.Select(r.dom, q) == z3.Select(g["dom0"], q), z3.Select(r.arr, q) == z3.Select(g["arr0"], q)))
+    stored = z3.Select(r.arr, user)
+    if res is None:
+        return z3.And(z3.Not(known), untouched, z3.Select(r.dom, user) == known)
+    upgraded = z3.And(g["ok"], g["has_new"])
+    return z3.And(known, it.to_zbool(it.truth(res)) == g["ok"], untouched, z3.Select(r.dom, user),
+                  stored == z3.If(upgraded, g["new_hash"], z3.Select(g["arr0"], user)),
+                  it.to_z3(g["seen"]["hash"]) == z3.Select(g["arr0"], user), it.to_z3(g["seen"]["password"]) == it.to_z3(env.lookup("password")))
+
+
+from pyvc.contract import Bytes  # noqa: E402
+
+CONTRACTS.append(Contract(
+    "HtpasswdFile.check_password", f"{A}::HtpasswdFile.check_password",
+    params={"self": Obj(), "user": Bytes(), "password": Bytes()},
+    setup=_cp_setup,
+    ensures=[("None exactly for unknown users; otherwise the context's verdict on (password, stored hash); an upgraded hash replaces the stored one only after a successful check; every other record untouched", _cp_post)],
+    descr="any record map, any user, any verdict of the context",
+))
+MUTANTS += [
+    ("check_password: upgraded hash stored even when the password was wrong", A, "        if ok and new_hash is not None:\n", "        if new_hash is not None:\n", "refute", "check_password"),
+    ("check_password: unknown user reported as a wrong password", A, "        if hash is None:\n            return None\n        if isinstance(password, str):", "        if hash is None:\n            return False\n        if isinstance(password, str):", "refute", "check_password"),
+]
